@@ -30,8 +30,8 @@ Proof.
   pose proof (ids_reweigh v h heur (e_q (getent h t)) (h_rs h)) as RW.
   destruct (reweigh_q v h heur (e_q (getent h t)) (h_rs h)) as [q' rs']. simpl in RW.
   apply inv_with_rs.
-  apply (inv_ext d h); auto; try (gs; rewrite ?length_upd; reflexivity).
-  intros t'. gs. destruct (Nat.eq_dec t' t) as [->|N].
+  apply (inv_ext d h); auto; try (unfold upde, with_ents; cbn [h_ents h_qs]; rewrite ?length_upd; reflexivity).
+  intros t'. unfold getent, upde, with_ents; cbn [h_ents]. destruct (Nat.eq_dec t' t) as [->|N].
     + destruct (Nat.lt_ge_cases t (length (h_ents h))) as [L|L].
       * rewrite nth_upd_eq by auto. simpl. split.
         -- eapply perm_trans; [apply ids_isort|]. rewrite RW. apply Permutation_refl.
